@@ -1760,6 +1760,22 @@ pub fn verif_dijkstra_cmp(a_cost: f64, a_id: u64, b_cost: f64, b_id: u64) -> i8 
     a.cmp(&b) as i8
 }
 
+/// Verification hook: `PartialOrd::partial_cmp` of the same entries (`2` for `None`); the
+/// binary heap's sift operations compare through this, not through `Ord::cmp`.
+#[cfg(feature = "neumann_verif")]
+#[must_use]
+pub fn verif_dijkstra_partial_cmp(a_cost: f64, a_id: u64, b_cost: f64, b_id: u64) -> i8 {
+    let a = DijkstraEntry {
+        cost: a_cost,
+        node_id: a_id,
+    };
+    let b = DijkstraEntry {
+        cost: b_cost,
+        node_id: b_id,
+    };
+    a.partial_cmp(&b).map_or(2, |o| o as i8)
+}
+
 /// Verification hook: a schedule point inside the adjacency read-modify-write window
 /// (between reading an edge list and writing it back). The installed callback receives
 /// the list key; `None` (the default) does nothing.
